@@ -327,9 +327,45 @@ def rule_errfirst(ctx):
             if isinstance(g.elt, ast.Name) and any(
                     'XlError' in norm_src(c) for c in g.generators[0].ifs):
                 ok = True
+    # ... or `next(filter(<XlError test>, <in order>), None)`
+    for n in own_nodes(ge):
+        if isinstance(n, ast.Call) and isinstance(n.func, ast.Name) and \
+                n.func.id == 'next' and n.args and isinstance(
+                n.args[0], ast.Call) and isinstance(
+                n.args[0].func, ast.Name) and n.args[0].func.id == 'filter' \
+                and len(n.args[0].args) == 2:
+            pred, it_ = n.args[0].args
+            it = norm_src(it_)
+            if 'reversed' in it or 'sorted' in it or '[::-1]' in it:
+                continue
+            ptxt = norm_src(pred)
+            if isinstance(pred, (ast.Name, ast.Attribute)):
+                r_ = ctx.cg.resolve_name_expr(ge, pred)
+                if r_ and r_[0] == 'func':
+                    ptxt = norm_src(r_[1].node)
+            if 'XlError' in ptxt and 'isinstance' in ptxt:
+                ok = True
+    # positive evidence of another order: the scan runs over a reordered
+    # view, or keeps the *last* error (assigned in the loop, returned after)
+    reordered = [n for n in own_nodes(ge) if isinstance(n, ast.Call) and (
+        isinstance(n.func, ast.Name) and n.func.id in (
+            'reversed', 'sorted', 'set', 'frozenset'))] + [
+        n for n in own_nodes(ge) if isinstance(n, ast.Subscript) and
+        norm_src(n.slice) == '::-1']
+    last_wins = False
+    for lp in loops:
+        for s_ in ast.walk(lp):
+            if isinstance(s_, ast.If) and 'XlError' in norm_src(s_.test) and \
+                    not any(isinstance(b, (ast.Return, ast.Break))
+                            for x in s_.body for b in ast.walk(x)) and any(
+                    isinstance(b, ast.Assign) for b in s_.body):
+                last_wins = True
     if ok:
         rr.ok('get_error scans the arguments in order and returns the first '
               'XlError', ge.module.rel)
+    elif not (reordered or last_wins):
+        raise AnalysisError('C02.errfirst: how get_error picks the error it '
+                            'returns was not recognised')
     else:
         rr.fail(key_of(ge, 'does not return the first error in order'),
                 'get_error no longer returns the first XlError found scanning '
